@@ -20,12 +20,76 @@ class Unfoldable(Exception):
     pass
 
 
+class PySeq(list):
+    """A python sequence (tuple / list display, range, shape) as opposed to a tensor value: true iff non-empty."""
+
+
+def truth(t) -> bool:
+    """Truth value of an evaluated condition; Unfoldable where python / torch would not give one."""
+    if isinstance(t, PySeq):
+        return len(t) > 0
+    if isinstance(t, list):
+        if len(t) == 1 and not isinstance(t[0], list):
+            return bool(t[0])  # one-element tensor
+        raise Unfoldable("tensor-valued condition")
+    return bool(t)
+
+
 def _depth(z) -> int:
     d = 0
     while isinstance(z, list):
         d += 1
         z = z[0] if z else None
     return d
+
+
+def _shape(z) -> List[int]:
+    dims = []
+    while isinstance(z, list):
+        dims.append(len(z))
+        z = z[0] if z else None
+    return dims
+
+
+def _reduce_axes(v, axes, keepdim: bool, op: str):
+    """sum / mean of a nested list over the given axes (empty = all axes, as torch does for dim=())"""
+    shp = _shape(v)
+    rank = len(shp)
+    axes = sorted({a % rank for a in axes}) if axes else list(range(rank))
+
+    def get(idx):
+        t = v
+        for i in idx:
+            t = t[i]
+        return t
+
+    import itertools
+
+    out_axes = [a for a in range(rank) if a not in axes]
+    count = 1
+    for a in axes:
+        count *= shp[a]
+    if count == 0:
+        raise Unfoldable("reduction over an empty axis")
+
+    def build(prefix, level):
+        if level == rank:
+            fixed = dict(zip(out_axes, prefix))
+            tot = 0
+            for combo in itertools.product(*[range(shp[a]) for a in axes]):
+                idx = [None] * rank
+                for a, i in fixed.items():
+                    idx[a] = i
+                for a, i in zip(axes, combo):
+                    idx[a] = i
+                tot = tot + get(idx)
+            return tot / count if op == "mean" else tot
+        if level in axes:
+            inner = build(prefix, level + 1)
+            return [inner] if keepdim else inner
+        return [build(prefix + [i], level + 1) for i in range(shp[level])]
+
+    return build([], 0)
 
 
 def _ew(f, a, b=None):
@@ -63,6 +127,14 @@ class Folder:
         self.funcs: Dict[str, ast.FunctionDef] = {}
         #: torch.zeros / torch.ones with integer sizes give a nested list of that shape instead of a broadcasting scalar
         self.materialise = False
+        #: class names of the analysed program that the caller models by own Python classes: name -> constructor
+        self.ctors: Dict[str, Any] = {}
+
+    def _peek(self, node: ast.AST):
+        try:
+            return self.fold(node)
+        except Unfoldable:
+            return None
 
     def fold(self, node: ast.AST):
         if isinstance(node, ast.Constant):
@@ -70,7 +142,7 @@ class Folder:
                 return node.value
             raise Unfoldable(f"constant {node.value!r}")
         if isinstance(node, (ast.List, ast.Tuple)):
-            return [self.fold(e) for e in node.elts]
+            return PySeq(self.fold(e) for e in node.elts)
         if isinstance(node, ast.JoinedStr):
             out = ""
             for part in node.values:
@@ -121,13 +193,19 @@ class Folder:
                 if flat and all(isinstance(x, bool) for x in flat):
                     return "torch.bool"
                 return "torch.int64"
+            try:
+                base_obj = self.fold(node.value) if isinstance(node.value, (ast.Name, ast.Attribute, ast.Call, ast.Subscript)) else None
+            except Unfoldable:
+                base_obj = None
+            if base_obj is not None and getattr(type(base_obj), "_kv_eval_obj", False) and not node.attr.startswith("__") and hasattr(base_obj, node.attr) and (not callable(getattr(base_obj, node.attr)) or getattr(type(getattr(base_obj, node.attr)), "_kv_eval_obj", False)):
+                return getattr(base_obj, node.attr)
             if node.attr == "shape":
                 v = self.fold(node.value)
                 dims = []
                 while isinstance(v, list):
                     dims.append(len(v))
                     v = v[0] if v else None
-                return dims
+                return PySeq(dims)
             if node.attr == "ndim":
                 v = self.fold(node.value)
                 d = 0
@@ -184,10 +262,7 @@ class Folder:
         if isinstance(node, ast.IfExp):
             d = self.decide(node.test) if self.decide else None
             if d is None:
-                t = self.fold(node.test)
-                if isinstance(t, list):
-                    raise Unfoldable(f"undecided condition {unparse(node.test)}")
-                d = bool(t)
+                d = truth(self.fold(node.test))
             return self.fold(node.body if d else node.orelse)
         if isinstance(node, ast.Subscript):
             base = self.fold(node.value)
@@ -302,6 +377,23 @@ class Folder:
                 fake = ast.Call(func=ast.Attribute(value=ast.Name(id="torch", ctx=ast.Load()), attr=m, ctx=ast.Load()), args=[node.func.value] + list(node.args), keywords=list(node.keywords))
                 return self.fold(fake)
             raise Unfoldable(f"method {m}")
+        if isinstance(node, ast.Call) and not node.keywords and isinstance(node.func, (ast.Name, ast.Attribute)):
+            try:
+                target = self.fold(node.func) if (isinstance(node.func, ast.Name) and node.func.id in self.names) or (isinstance(node.func, ast.Attribute) and attr_chain(node.func) in self.attrs) else None
+            except Unfoldable:
+                target = None
+            if target is not None and getattr(type(target), "_kv_eval_obj", False) and callable(target):
+                try:
+                    return target(*[self.fold(a) for a in node.args])
+                except (TypeError, ValueError, IndexError) as exc:
+                    raise Unfoldable(str(exc))
+        if isinstance(node, ast.Call) and isinstance(node.func, ast.Name) and node.func.id in self.ctors and not node.keywords:
+            try:
+                return self.ctors[node.func.id](*[self.fold(a) for a in node.args])
+            except (TypeError, ValueError) as exc:
+                raise Unfoldable(str(exc))
+        if isinstance(node, ast.Call) and isinstance(node.func, ast.Name) and node.func.id == "isinstance" and len(node.args) == 2 and isinstance(node.args[1], ast.Name) and node.args[1].id in self.ctors:
+            return isinstance(self.fold(node.args[0]), self.ctors[node.args[1].id])
         if isinstance(node, ast.Call) and isinstance(node.func, ast.Name) and node.func.id in self.funcs:
             from .frag import FragReturn, run_fragment
 
@@ -321,7 +413,7 @@ class Folder:
             if any(p_ not in env for p_ in params):
                 raise Unfoldable(f"call {node.func.id}: missing argument")
             try:
-                run_fragment(fd.body, env, self.attrs, funcs={k: v for k, v in self.funcs.items() if k != node.func.id})
+                run_fragment(fd.body, env, self.attrs, funcs={k: v for k, v in self.funcs.items() if k != node.func.id}, materialise=self.materialise, ctors=self.ctors)
             except FragReturn as r:
                 return r.value
             raise Unfoldable(f"call {node.func.id}: no return value")
@@ -454,6 +546,13 @@ class Folder:
                 if isinstance(v, list) and d in (0, -1):
                     return v.index(pick(v))
                 raise Unfoldable("arg-reduction over an axis")
+            if short in ("sum", "mean") and node.args and (any(k.arg == "dim" for k in node.keywords) or len(node.args) == 2) and (any(k.arg == "keepdim" for k in node.keywords) or isinstance(self._peek(node.args[1] if len(node.args) == 2 else next(k.value for k in node.keywords if k.arg == "dim")), list)):
+                v = self.fold(node.args[0])
+                d = self.fold(node.args[1] if len(node.args) == 2 else next(k.value for k in node.keywords if k.arg == "dim"))
+                kd = bool(next((self.fold(k.value) for k in node.keywords if k.arg == "keepdim"), False))
+                if isinstance(v, list) and (isinstance(d, list) and all(isinstance(a, int) for a in d) or isinstance(d, int)):
+                    return _reduce_axes(v, d if isinstance(d, list) else [d], kd, short)
+                raise Unfoldable("reduction axes")
             if short == "sum" and node.args and (any(k.arg == "dim" for k in node.keywords) or len(node.args) == 2):
                 v = self.fold(node.args[0])
                 d = self.fold(node.args[1] if len(node.args) == 2 else next(k.value for k in node.keywords if k.arg == "dim"))
@@ -525,6 +624,16 @@ class Folder:
                     return sorted(v) if nm == "sorted" else [[i, x] for i, x in enumerate(v)]
                 except TypeError as exc:
                     raise Unfoldable(str(exc))
+            if nm == "range" and 1 <= len(node.args) <= 3 and not node.keywords:
+                a = [self.fold(x) for x in node.args]
+                if all(isinstance(x, int) and not isinstance(x, bool) for x in a):
+                    return PySeq(range(*a))
+                raise Unfoldable("range bounds")
+            if nm == "tuple" and len(node.args) == 1 and not node.keywords:
+                v = self.fold(node.args[0])
+                if isinstance(v, list):
+                    return PySeq(v)
+                raise Unfoldable("tuple of a non-sequence")
             if nm in ("bin", "len", "reversed", "list", "str") and len(node.args) == 1 and not node.keywords:
                 v = self.fold(node.args[0])
                 if nm == "bin" and isinstance(v, int) and not isinstance(v, bool):
